@@ -445,6 +445,8 @@ def _hchunk(chunk, seed):
 
 
 def replay(case):
+    if "config" in case:
+        return run_config(case)
     if case.get("history"):
         if case.get("sliced"):
             # replayed in the company it failed in: the first 60 histories of its (policy, kind)
@@ -456,6 +458,76 @@ def replay(case):
         hb, pc = run_histories(case, [case])
         return hb + pc[0]
     return run_case(case)[0]
+
+
+# ------------------------------------------------------------------ part C: the configuration call site
+def config_cases():
+    out = []
+    for imm in (None, "true", "false"):
+        for mut in (None, "true", "false"):
+            for mode in ("age", "cutoff-date"):
+                out.append({"config": [imm, mut, mode]})
+    return out
+
+
+def run_config(case):
+    """tahoe.cfg [storage] expire.* -> _Client.get_anonymous_storage_server (the real call site that turns the options
+    into the crawler's policy): the share types handed to the lease checker must be exactly the enabled ones"""
+    import os
+    import shutil
+    from twisted.application import service
+    from allmydata import client
+    from allmydata.node import config_from_string
+    imm, mut, mode = case["config"]
+
+    class Stub(service.MultiService):
+        STOREDIR = "storage"
+        nodeid = b"n" * 20
+        stats_provider = None
+
+        def __init__(self, config):
+            service.MultiService.__init__(self)
+            self.config = config
+
+        def get_config(self, *a, **kw):
+            return self.config.get_config(*a, **kw)
+    lines = ["[node]", "nickname = x", "[storage]", "enabled = true", "expire.enabled = true", "expire.mode = " + mode]
+    lines += ["expire.override_lease_duration = 1 day"] if mode == "age" else ["expire.cutoff_date = 2009-01-16"]
+    if imm is not None:
+        lines.append("expire.immutable = " + imm)
+    if mut is not None:
+        lines.append("expire.mutable = " + mut)
+    tmp = "/dev/shm/vt-c26-config-%d" % os.getpid()
+    shutil.rmtree(tmp, ignore_errors=True)
+    os.makedirs(tmp)
+    try:
+        cfg = config_from_string(tmp, "client.port", "\n".join(lines) + "\n", _valid_config=client._valid_config())
+        ss = client._Client.get_anonymous_storage_server(Stub(cfg))
+        got = tuple(sorted(ss.lease_checker.sharetypes_to_expire))
+        got_mode = ss.lease_checker.mode
+        enabled = ss.lease_checker.expiration_enabled
+    except Exception as e:  # noqa
+        return [("config:start-up-raised:" + type(e).__name__, "tahoe.cfg %r: %r" % (lines[4:], e))]
+    finally:
+        shutil.rmtree(tmp, ignore_errors=True)
+        K.cancel_timers()
+    want = tuple(sorted(t for t, v in (("immutable", imm), ("mutable", mut)) if v != "false"))
+    bad = []
+    if got != want:
+        bad.append(("config:share-types-differ-from-options", "tahoe.cfg expire.immutable=%s expire.mutable=%s: the lease checker expires share types %r, the options enable %r" % (imm, mut, got, want)))
+    if got_mode != mode or enabled is not True:
+        bad.append(("config:mode-or-enabled-differs", "tahoe.cfg expire.enabled=true expire.mode=%s: the lease checker has mode %r, enabled %r" % (mode, got_mode, enabled)))
+    return bad
+
+
+def _config_chunk(chunk):
+    res = common.Result()
+    for case in chunk:
+        res.count("evaluations")
+        res.count("config_cases")
+        for sig, msg in run_config(case):
+            res.violation(sig, case, msg)
+    return res
 
 
 def run(tier, seed):
@@ -482,6 +554,7 @@ def run(tier, seed):
                 # the first server of each (policy, kind) once more with a time slice ending after every bucket
                 hitems.append([dict(c, sliced=True) for c in g[:60]])
     res.merge(common.pmap(_hchunk, hitems, (seed,)))
+    res.merge(common.pmap(_config_chunk, config_cases(), chunks=2))
     cov = {
         "evaluations": res.counts.get("evaluations", 0),
         "distinct_nontrivial": res.counts.get("nontrivial", 0),
